@@ -34,8 +34,9 @@ def _expected_fills(s, case: S.SimCase):
     return segs, pos
 
 
-def _check_case(repo, case: S.SimCase, rank):
-    """Returns (violations, sample) for one weak ordering."""
+def _check_case(repo, case: S.SimCase, rank, fast: bool = False):
+    """Returns (violations, sample) for one weak ordering.  fast=True: the fast simulator's matcher on a one-candle chunk; the
+    same path reference applies (the remaining path covers the same prices), only the per-minute epilogue rules are skipped."""
     desc = describe(rank)
     samples = embeddings(rank, 2)
     for s in samples:
@@ -45,7 +46,7 @@ def _check_case(repo, case: S.SimCase, rank):
             s[f"q{i}"] = Fraction(1)
         s["qr"] = Fraction(1)
     try:
-        outs = S.run_match_loop(repo, case, samples)
+        outs = S.run_match_loop(repo, case, samples, fast=fast)
     except AnalysisError as e:
         if "while loop exceeded" in str(e):
             return [("C02-R2", f"match-loop|nonterminating|{desc}",
@@ -129,6 +130,10 @@ def _check_case(repo, case: S.SimCase, rank):
                     viols.append(("C08-R3", f"match-loop|partial|{desc}",
                                   f"partial candle published before fill of {ev[1]} does not close at the fill price for {desc}"))
                 last_partial = None
+        if fast:
+            if trace_sample is None:
+                trace_sample = {"ordering": desc, "fills": got, "expected_positions": {k: [v[0], str(v[1])] for k, v in pos.items()}}
+            continue
         # epilogue: real candle stored, current price = close, liquidation check after matching
         adds = [ev for ev in out.events if ev[0] == "add_candle"]
         real = tuple(W.candle().items)
@@ -174,13 +179,14 @@ def _cases(tier):
 
 
 def _work(args):
-    root, case_spec, ranks = args
+    root, case_spec, ranks = args[:3]
+    fast = len(args) > 3 and args[3]
     repo = Repo(root)
     case = S.SimCase(*case_spec)
     res = []
     for rank in ranks:
         try:
-            res.append((rank, _check_case(repo, case, rank), None))
+            res.append((rank, _check_case(repo, case, rank, fast), None))
         except AnalysisError as e:
             res.append((rank, ([], None), str(e)))
     return res
@@ -188,10 +194,22 @@ def _work(args):
 
 
 
-def run_all(repo: Repo, tier: str):
+def _fast_cases(tier):
+    cases = [S.SimCase(["p0", "p1"]),
+             # three resting orders in both storage orders relative to their prices (the matcher re-reads them in storage order)
+             S.SimCase(["p0", "p1", "p2"], extra_cons=[("p0", "<", "p1"), ("p1", "<", "p2")]),
+             S.SimCase(["p0", "p1", "p2"], extra_cons=[("p0", "<", "p2"), ("p2", "<", "p1")]),
+             S.SimCase(["p0"], reaction=(0, "r"))]
+    if tier != "quick":
+        cases.append(S.SimCase(["p0", "p1", "p2"]))
+        cases.append(S.SimCase(["p0"], reaction=(0, ["r", "r2"]), extra_cons=[("r", "<", "r2")]))
+    return cases
+
+
+def run_all(repo: Repo, tier: str, fast: bool = False):
     """Yield (ordering description, [(rule, key, message)], sample) for every case x weak ordering."""
     jobs = []
-    for case in _cases(tier):
+    for case in (_fast_cases(tier) if fast else _cases(tier)):
         rsyms = []
         if case.reaction:
             rsyms = list(case.reaction[1]) if isinstance(case.reaction[1], (list, tuple)) else [case.reaction[1]]
@@ -200,7 +218,7 @@ def run_all(repo: Repo, tier: str):
         spec = (case.order_prices, case.reaction, case.inactive, case.extra_cons)
         chunk = max(1, len(ranks) // 64)
         for i in range(0, len(ranks), chunk):
-            jobs.append((repo.root, spec, ranks[i:i + chunk]))
+            jobs.append((repo.root, spec, ranks[i:i + chunk], fast))
     nproc = min(16, os.cpu_count() or 1)
     with ProcessPoolExecutor(max_workers=nproc) as ex:
         for res in ex.map(_work, jobs):
